@@ -6,6 +6,7 @@ package main
 import (
 	"encoding/hex"
 	"fmt"
+	"math"
 	"os"
 	"path/filepath"
 	"strconv"
@@ -25,15 +26,35 @@ function fflush(f) return f:flush() end
 function fsetvbuf(f, m, n) return f:setvbuf(m, n) end
 function fclose(f) return f:close() end
 function fcall(it) return it() end
+function fioinput(f) return io.input(f) end
+function fiooutput(f) return io.output(f) end
+function fiolinesname(p) return io.lines(p) end
+function fioread(...) return io.read(...) end
+function fiowrite(s) return io.write(s) end
+function fioflush() return io.flush() end
+function fioclose() return io.close() end
+function fiolines() local it, st = io.lines(); if it == nil then return end; return function() return it(st) end end
+function fiotype(f) return io.type(f) end
+function fiotypeother() return io.type(42), io.type("file"), io.type(newproxy and newproxy() or {}), io.type(nil) end
+function fdefin(f) local d = io.input(); if d == f then return "cur" elseif d == io.stdin then return "std" elseif io.type(d) == "closed file" then return "stale" else return "other" end end
+function fdefout(f) local d = io.output(); if d == f then return "cur" elseif d == io.stdout then return "std" elseif io.type(d) == "closed file" then return "stale" else return "other" end end
+function fseek0(f) return f:seek() end
+function fseek1(f, w) return f:seek(w) end
+function fioclosef(f) return io.close(f) end
+function fopen1(p) return io.open(p) end
+function ftostr(f) return tostring(f) end
 `
 
 type ioWorld struct {
-	L    *lua.LState
-	dir  string
-	path string
-	f    lua.LValue
-	it   lua.LValue
-	fns  map[string]*lua.LFunction
+	L      *lua.LState
+	dir    string
+	path   string
+	f      lua.LValue
+	it     lua.LValue
+	itKind string // "file" (f:lines()), "auto" (io.lines(path)), "keep" (io.lines())
+	// which handle the default input / output slots of the io library hold: "std", "cur", "stale"
+	defIn, defOut string
+	fns           map[string]*lua.LFunction
 }
 
 // tmpBase: "" (= os.TempDir()) unless VERIF_TMPDIR is set; every case creates and removes its own directory.
@@ -48,8 +69,10 @@ func newIoWorld() (*ioWorld, error) {
 	if err := L.DoString(ioPrelude); err != nil {
 		return nil, err
 	}
-	w := &ioWorld{L: L, dir: dir, path: filepath.Join(dir, "f.dat"), fns: map[string]*lua.LFunction{}}
-	for _, n := range []string{"fopen", "fwrite", "fread", "flines", "fseek", "fflush", "fsetvbuf", "fclose", "fcall"} {
+	w := &ioWorld{L: L, dir: dir, path: filepath.Join(dir, "f.dat"), fns: map[string]*lua.LFunction{}, defIn: "std", defOut: "std"}
+	for _, n := range []string{"fopen", "fwrite", "fread", "flines", "fseek", "fflush", "fsetvbuf", "fclose", "fcall",
+		"fioinput", "fiooutput", "fiolinesname", "fioread", "fiowrite", "fioflush", "fioclose", "fiolines", "fiotype", "ftostr",
+		"fiotypeother", "fdefin", "fdefout", "fseek0", "fseek1", "fioclosef", "fopen1"} {
 		w.fns[n] = L.GetGlobal(n).(*lua.LFunction)
 	}
 	return w, nil
@@ -62,6 +85,19 @@ func (w *ioWorld) close() {
 	}
 	w.L.Close()
 	os.RemoveAll(w.dir)
+}
+
+// age: a new handle replaced the current one; a default slot that held the old one now holds a stale (closed) handle
+func (w *ioWorld) age(setIn, setOut bool) {
+	upd := func(slot *string, set bool) {
+		if set {
+			*slot = "cur"
+		} else if *slot == "cur" {
+			*slot = "stale"
+		}
+	}
+	upd(&w.defIn, setIn)
+	upd(&w.defOut, setOut)
 }
 
 // call: protected Lua-level call; returns the values or raised=true
@@ -110,11 +146,44 @@ func encIoRes(res []lua.LValue, raised bool) string {
 			parts[i] = "nil"
 		case lua.LString:
 			parts[i] = "s" + hex.EncodeToString([]byte(string(x)))
+		case lua.LNumber:
+			parts[i] = "d" + strconv.FormatUint(math.Float64bits(float64(x)), 10)
 		default:
 			parts[i] = "?" + v.Type().String()
 		}
 	}
 	return strings.Join(parts, " ")
+}
+
+// encReadRes: like encIoRes, but a number is always a value of the list (d<bits>), never an offset
+func encReadRes(res []lua.LValue, raised bool) string {
+	if !raised && len(res) == 1 {
+		if n, ok := res[0].(lua.LNumber); ok {
+			return "d" + strconv.FormatUint(math.Float64bits(float64(n)), 10)
+		}
+	}
+	return encIoRes(res, raised)
+}
+
+// readArgs: n<count> | l | a | N ("*n") | S<hex> (a raw format string)
+func readArgs(fs []string) []lua.LValue {
+	var args []lua.LValue
+	for _, f := range fs {
+		switch f[0] {
+		case 'n':
+			n, _ := strconv.Atoi(f[1:])
+			args = append(args, lua.LNumber(n))
+		case 'l':
+			args = append(args, lua.LString("*l"))
+		case 'a':
+			args = append(args, lua.LString("*a"))
+		case 'N':
+			args = append(args, lua.LString("*n"))
+		case 'S':
+			args = append(args, lua.LString(decHex(f)))
+		}
+	}
+	return args
 }
 
 func decHex(tok string) string {
@@ -181,44 +250,48 @@ func execIoInner(ops []Op, sink *[]string) []string {
 			if !closed {
 				continue // (only after shrinking) one handle at a time: reopen only after close
 			}
-			res, raised := w.call("fopen", lua.LString(w.path), lua.LString(a[1]))
+			var res []lua.LValue
+			var raised bool
+			if len(a) > 2 && a[2] == "bare" && a[1] == "r" {
+				res, raised = w.call("fopen1", lua.LString(w.path)) // io.open(path): the mode defaults to "r"
+			} else {
+				res, raised = w.call("fopen", lua.LString(w.path), lua.LString(a[1]))
+			}
+			a = a[:2]
 			if raised || len(res) != 1 || res[0].Type() != lua.LTUserData {
 				return append(out, "X reopen-failed => "+encIoRes(res, raised))
 			}
 			w.f, w.it, closed = res[0], nil, false
+			w.age(false, false)
 			emit(a, "T")
 		case "write":
 			emit(a, encIoRes(w.call("fwrite", w.f, lua.LString(decHex(a[1])))))
 		case "read":
-			args := []lua.LValue{w.f}
-			for _, f := range a[1:] {
-				switch f[0] {
-				case 'n':
-					n, _ := strconv.Atoi(f[1:])
-					args = append(args, lua.LNumber(n))
-				case 'l':
-					args = append(args, lua.LString("*l"))
-				case 'a':
-					args = append(args, lua.LString("*a"))
-				}
-			}
-			emit(a, encIoRes(w.call("fread", args...)))
+			args := append([]lua.LValue{w.f}, readArgs(a[1:])...)
+			emit(a, encReadRes(w.call("fread", args...)))
 		case "lines":
 			res, raised := w.call("flines", w.f)
 			if !raised && len(res) == 1 && res[0].Type() == lua.LTFunction {
-				w.it = res[0]
+				w.it, w.itKind = res[0], "file"
 			} else {
 				w.it = nil
 			}
 			emit(a, encIoRes(res, raised))
 		case "iter":
-			if w.it == nil {
+			if w.it == nil || w.itKind != "file" {
 				continue // no iterator of this handle: nothing to call
 			}
 			emit(a, encIoRes(w.call("fcall", w.it)))
 		case "seek":
 			off, _ := strconv.Atoi(a[2])
-			emit(a, encIoRes(w.call("fseek", w.f, lua.LString(a[1]), lua.LNumber(off))))
+			switch {
+			case len(a) > 3 && a[3] == "bare" && a[1] == "cur" && off == 0:
+				emit(a[:3], encIoRes(w.call("fseek0", w.f))) // f:seek(): "cur", 0
+			case len(a) > 3 && a[3] == "bare" && off == 0:
+				emit(a[:3], encIoRes(w.call("fseek1", w.f, lua.LString(a[1])))) // f:seek(whence): offset 0
+			default:
+				emit(a[:3], encIoRes(w.call("fseek", w.f, lua.LString(a[1]), lua.LNumber(off))))
+			}
 		case "flush":
 			emit(a, encIoRes(w.call("fflush", w.f)))
 		case "setvbuf":
@@ -229,17 +302,167 @@ func execIoInner(ops []Op, sink *[]string) []string {
 			}
 			emit(a, encIoRes(w.call("fsetvbuf", w.f, lua.LString(a[1]), nv)))
 		case "close":
-			res, raised := w.call("fclose", w.f)
+			fn := "fclose"
+			if len(a) > 1 && a[1] == "io" {
+				fn = "fioclosef" // io.close(f)
+			}
+			res, raised := w.call(fn, w.f)
 			if !raised {
 				closed = true
 			}
-			emit(a, encIoRes(res, raised))
+			emit(a[:1], encIoRes(res, raised))
 		case "disk":
 			b, err := os.ReadFile(w.path)
 			if err != nil {
 				return append(out, "X readfile => "+err.Error())
 			}
 			emit(a, "s"+hex.EncodeToString(b))
+		// ---- the io library level: default files, io.lines, io.type
+		case "ioinput", "iooutput":
+			res, raised := w.call("f"+a[0], w.f)
+			rep := encIoRes(res, raised)
+			if !raised && len(res) == 1 && res[0] == w.f {
+				rep = "T"
+				if a[0] == "ioinput" {
+					w.defIn = "cur"
+				} else {
+					w.defOut = "cur"
+				}
+			}
+			emit(a, rep)
+		case "ioinputname", "iooutputname", "iolinesname":
+			if !closed {
+				continue // (only after shrinking) one handle at a time
+			}
+			fn := map[string]string{"ioinputname": "fioinput", "iooutputname": "fiooutput", "iolinesname": "fiolinesname"}[a[0]]
+			res, raised := w.call(fn, lua.LString(w.path))
+			if raised || len(res) != 1 {
+				return append(out, "X "+a[0]+"-failed => "+encIoRes(res, raised))
+			}
+			w.it = nil
+			switch a[0] {
+			case "ioinputname":
+				w.f = res[0]
+				w.age(true, false)
+			case "iooutputname":
+				w.f = res[0]
+				w.age(false, true)
+			default:
+				// the handle is the second upvalue of the iterator closure
+				fn, ok := res[0].(*lua.LFunction)
+				if !ok || len(fn.Upvalues) < 2 {
+					return append(out, "X iolinesname-no-iterator => "+encIoRes(res, raised))
+				}
+				w.f, w.it, w.itKind = fn.Upvalues[1].Value(), fn, "auto"
+				w.age(false, false)
+			}
+			if w.f.Type() != lua.LTUserData {
+				return append(out, "X "+a[0]+"-no-handle => "+encIoRes(res, raised))
+			}
+			closed = false
+			emit(a, "T")
+			if a[0] == "iooutputname" {
+				// what io.output(name) did to the file is visible at once
+				b, err := os.ReadFile(w.path)
+				if err != nil {
+					return append(out, "X readfile => "+err.Error())
+				}
+				emit([]string{"disk"}, "s"+hex.EncodeToString(b))
+			}
+		case "ioread":
+			if w.defIn == "std" {
+				continue // never touch stdin
+			}
+			emit(a, encReadRes(w.call("fioread", readArgs(a[1:])...)))
+		case "iowrite":
+			if w.defOut == "std" {
+				continue // never touch stdout
+			}
+			emit(a, encIoRes(w.call("fiowrite", lua.LString(decHex(a[1])))))
+		case "ioflush":
+			if w.defOut == "std" {
+				continue
+			}
+			emit(a, encIoRes(w.call("fioflush")))
+		case "ioclose":
+			if w.defOut == "std" {
+				continue // never close stdout
+			}
+			res, raised := w.call("fioclose")
+			if !raised && w.defOut == "cur" {
+				closed = true
+			}
+			emit(a, encIoRes(res, raised))
+		case "iolines":
+			if w.defIn == "std" {
+				continue
+			}
+			res, raised := w.call("fiolines")
+			if !raised && len(res) == 1 && res[0].Type() == lua.LTFunction && w.defIn == "cur" {
+				w.it, w.itKind = res[0], "keep"
+			} else {
+				w.it = nil // (an iterator over a stale handle is not followed up)
+			}
+			emit(a, encIoRes(res, raised))
+		case "ioiter":
+			if w.it == nil || w.itKind != a[1] {
+				continue
+			}
+			wasClosed := closed
+			emit(a, encIoRes(w.call("fcall", w.it)))
+			if a[1] == "auto" && !wasClosed {
+				// did the iterator close the handle?  (io.type is a pure query; the engine checks it separately)
+				if res, raised := w.call("fiotype", w.f); !raised && len(res) == 1 && res[0] == lua.LString("closed file") {
+					closed = true
+				}
+			}
+		case "iodrain":
+			// call the iterator of io.lines(path) until it returns nil (it closes the file then); one request per call
+			if w.it == nil || w.itKind != "auto" || closed {
+				continue
+			}
+			for k := 0; k < 200000; k++ {
+				res, raised := w.call("fcall", w.it)
+				emit([]string{"ioiter", "auto"}, encIoRes(res, raised))
+				if raised || len(res) != 1 || res[0] == lua.LNil {
+					break
+				}
+			}
+			if res, raised := w.call("fiotype", w.f); !raised && len(res) == 1 && res[0] == lua.LString("closed file") {
+				closed = true
+			}
+		case "iotype":
+			emit(a, encIoRes(w.call("fiotype", w.f)))
+		case "iotypeother":
+			// io.type of things that are not file handles: nil each time
+			res, raised := w.call("fiotypeother")
+			rep := "raise"
+			if !raised {
+				rep = fmt.Sprint(len(res))
+				for _, v := range res {
+					if v != lua.LNil {
+						rep = "not-nil:" + v.String()
+					}
+				}
+			}
+			emit(a, rep)
+		case "defin", "defout":
+			// which handle does io.input() / io.output() return?
+			res, raised := w.call("f"+a[0], w.f)
+			rep := "raise"
+			if !raised && len(res) == 1 {
+				rep = res[0].String()
+			}
+			emit(a, rep)
+		case "tostr":
+			res, raised := w.call("ftostr", w.f)
+			if !raised && len(res) == 1 {
+				// Lua 5.1 prints "file (0x…)" for an open handle; the address is not part of the observation
+				if str, ok := res[0].(lua.LString); ok && strings.HasPrefix(string(str), "file (0x") {
+					res[0] = lua.LString("file")
+				}
+			}
+			emit(a, encIoRes(res, raised))
 		default:
 			panic("bad op " + a[0])
 		}
@@ -248,6 +471,8 @@ func execIoInner(ops []Op, sink *[]string) []string {
 }
 
 // ---------- generator ----------
+
+var badFormats = []string{"", "x", "*", "*x", "*line", "*la", "*nl", "l", "*L", "3", "**", "*a ", "n", "*number", "* l"}
 
 var ioModes = []string{"r", "rb", "w", "wb", "a", "ab", "r+", "rb+", "w+", "wb+", "a+", "ab+"}
 var ioSizes = []int{0, 1, 4095, 4096, 4097, 8192, 10000}
@@ -272,7 +497,7 @@ func modeCaps(m string) (rd, wr, app, trunc bool) {
 // genContent: n bytes in one of several line profiles (the profile name goes into the histogram).
 func genContent(r *Rng, n int) ([]byte, string) {
 	b := make([]byte, 0, n)
-	prof := Pick(r, []string{"short-lines", "short-lines", "long-line", "no-newline", "crlf", "binary", "boundary-line"})
+	prof := Pick(r, []string{"short-lines", "short-lines", "long-line", "no-newline", "crlf", "binary", "boundary-line", "numbers", "numbers"})
 	letter := func(i int) byte { return byte('a' + i%26) }
 	switch prof {
 	case "short-lines":
@@ -316,6 +541,8 @@ func genContent(r *Rng, n int) ([]byte, string) {
 				b = append(b, '\r', '\n')
 			}
 		}
+	case "numbers":
+		b = genNumbers(r, n)
 	case "binary":
 		for len(b) < n {
 			b = append(b, Pick(r, []byte{0, 1, '\n', '\r', 'x', 0xff, 0x80, ' ', '\n', 'y'}))
@@ -340,7 +567,62 @@ func genContent(r *Rng, n int) ([]byte, string) {
 	return b, prof
 }
 
+// numerals whose reading by "*n" the Spec fixes (when followed by white space or the end of the file) …
+var numToks = []string{"0", "7", "12", "-3", "+45", "3.25", "-0.5", ".5", "5.", "1e3", "1E-2", "-2.5e+3", "123456789", "0.1",
+	"1e308", "4.9e-324", "2e-324", "9007199254740993", "123456789012345678901234567890", "1.7976931348623157e308", "00012",
+	"1e0", "0.30000000000000004", "2.2250738585072011e-308", "17.5E+0", "-.25", "0x10", "0XfF", "-0x1"}
+
+// … and texts outside that fragment (Model only): what fmt.Fscanf/strconv accept or reject beyond C's numerals
+var numExotic = []string{"inf", "nan", "-inf", "+Inf", "NaN", "1_0", "0x1p4", "1p3", "1e", "1e+", "abc", "-", ".", "1e999", "--5",
+	"1.5.5", "0x", "n5", "na", "i", "in7", "+.e1", "1e5000", "0x1.8p1", "1P3", "0x_1p1", "1__0", "_1", "1_", "0b101", "1e1_0",
+	"\xc2\xa07", "\xe2\x80\x837", "\xe3\x80\x80 8", "\xe27", "\xff1", "1.7976931348623159e308", "-1e400", "0x1p1024", "0x1p-1080",
+	"1.5p3", "2p-1", "1p99999999999999999999", "12abc", "3,4", "0x1g", "1e-", "+", "+-1", "1e+5x"}
+
+var numBlanks = []string{" ", " ", "  ", "\t", " \t ", "\v", "\f", "\r"}
+var numBlanksLF = []string{"\n", "\r\n", " \n ", " ", "\t"}
+
+func genNumbers(r *Rng, n int) []byte {
+	b := make([]byte, 0, n+40)
+	// one text in five separates the numerals by line feeds (every "*n" after the first then shows the recorded
+	// finding C19-readnum-rejects-newline); the others use the other kinds of white space, so that whole histories
+	// stay comparable with the Spec
+	blanks := numBlanks
+	if r.Chance(20) {
+		blanks = numBlanksLF
+	}
+	decimal := len(numToks) - 3 // the last three are hexadecimal (recorded finding C19-readnum-rejects-hex)
+	if r.Chance(50) {
+		b = append(b, Pick(r, blanks)...)
+	}
+	for len(b) < n {
+		switch c := r.Intn(100); {
+		case c < 8:
+			b = append(b, Pick(r, numExotic)...)
+		case c < 11:
+			b = append(b, numToks[decimal+r.Intn(3)]...)
+		default:
+			b = append(b, numToks[r.Intn(decimal)]...)
+		}
+		if r.Chance(3) {
+			continue // two tokens glued together
+		}
+		b = append(b, Pick(r, blanks)...)
+		if r.Chance(4) {
+			// a long run of blanks (up to across the buffer boundary)
+			for k := r.Intn(300); k > 0; k-- {
+				b = append(b, ' ')
+			}
+		}
+	}
+	return b
+}
+
 func genWriteData(r *Rng) string {
+	if r.Chance(12) {
+		// numerals, to be read back with "*n"
+		b := genNumbers(r, r.Range(1, 40))
+		return "s" + hex.EncodeToString(b)
+	}
 	var n int
 	switch c := r.Intn(100); {
 	case c < 5:
@@ -387,6 +669,20 @@ func genIoCase(r *Rng, maxOps int) ([]Op, string) {
 		flen = 0
 	}
 	open, pendingRead, haveIter := true, false, false
+	defIn, defOut := "std", "std" // what the default slots of the io library hold: std / cur / stale
+	autoIter := false             // the current handle belongs to an io.lines(path) iterator
+	age := func(setIn, setOut bool) {
+		if setIn {
+			defIn = "cur"
+		} else if defIn == "cur" {
+			defIn = "stale"
+		}
+		if setOut {
+			defOut = "cur"
+		} else if defOut == "cur" {
+			defOut = "stale"
+		}
+	}
 	interesting := []int{0, 1, 2, 4095, 4096, 4097, 8191, 8192, 8193}
 	pos := func() int {
 		switch c := r.Intn(100); {
@@ -426,15 +722,74 @@ func genIoCase(r *Rng, maxOps int) ([]Op, string) {
 		if !open {
 			// a closed handle: mostly reopen, sometimes poke it (every operation must raise and change nothing)
 			if r.Chance(70) {
-				mode = Pick(r, ioModes)
-				add("reopen", mode)
-				rd, wr, _, trunc = modeCaps(mode)
-				if trunc {
-					flen = 0
+				autoIter = false
+				switch k := r.Intn(100); {
+				case k < 70:
+					mode = Pick(r, ioModes)
+					if mode == "r" && r.Chance(40) {
+						add("reopen", mode, "bare") // io.open(path)
+					} else {
+						add("reopen", mode)
+					}
+					rd, wr, _, trunc = modeCaps(mode)
+					if trunc {
+						flen = 0
+					}
+					age(false, false)
+				case k < 82:
+					add("ioinputname") // io.input(path): mode "r", becomes the default input
+					mode, rd, wr = "r", true, false
+					age(true, false)
+				case k < 87:
+					add("iooutputname") // io.output(path): mode "w", becomes the default output
+					mode, rd, wr = "w", false, true
+					age(false, true)
+				default:
+					add("iolinesname") // io.lines(path): mode "r", the handle belongs to the iterator
+					mode, rd, wr = "r", true, false
+					age(false, false)
+					autoIter = true
 				}
 				cur, open, pendingRead, haveIter = 0, true, false, false
+				if autoIter {
+					for k := r.Intn(5); k > 0; k-- {
+						add("ioiter", "auto")
+						pendingRead = true
+					}
+					if r.Chance(70) {
+						add("iodrain") // to the end of the file: the iterator closes the handle
+						add("ioiter", "auto")
+						add("iotype")
+						add("disk")
+						open = false
+					}
+				}
 			} else {
-				switch r.Intn(8) {
+				switch r.Intn(12) {
+				case 8:
+					add("iotype")
+				case 9:
+					add("tostr")
+				case 10:
+					// a closed handle as default file (Lua 5.1: error; gopher-lua accepts it)
+					if !r.Chance(35) {
+						add("iotype")
+					} else if r.Bool() {
+						add("ioinput")
+						defIn = "cur"
+					} else {
+						add("iooutput")
+						defOut = "cur"
+					}
+				case 11:
+					if defIn != "std" {
+						add(Pick(r, []string{"ioread", "iolines"}))
+					} else if defOut != "std" {
+						add(Pick(r, []string{"iowrite", "ioflush", "ioclose"}), "s58")
+						if ops[len(ops)-1].Args[0] != "iowrite" {
+							ops[len(ops)-1].Args = ops[len(ops)-1].Args[:1]
+						}
+					}
 				case 0:
 					add("write", genWriteData(r))
 				case 1:
@@ -455,6 +810,65 @@ func genIoCase(r *Rng, maxOps int) ([]Op, string) {
 					add("close")
 				}
 				add("disk")
+			}
+			continue
+		}
+		if r.Chance(16) {
+			// the io library level: default files, io.lines(), io.type, tostring
+			switch k := r.Intn(100); {
+			case k < 14:
+				add("ioinput")
+				defIn = "cur"
+			case k < 28:
+				add("iooutput")
+				defOut = "cur"
+			case k < 36:
+				add(Pick(r, []string{"iotype", "tostr", "defin", "defout", "iotypeother"}))
+			case k < 58 && defIn != "std": // io.read
+				args := []string{"ioread"}
+				for i := r.Range(1, 2); i > 0; i-- {
+					f := Pick(r, []string{"l", "l", "a", "n0", "n1", "n7", "n4096", "n5000", "N", "N"})
+					if prof == "numbers" && r.Chance(50) {
+						f = "N"
+					}
+					args = append(args, f)
+				}
+				if r.Chance(10) {
+					args = []string{"ioread"}
+				}
+				add(args...)
+				if defIn == "cur" {
+					pendingRead = true
+				}
+			case k < 68 && defIn != "std": // io.lines() and a few calls
+				add("iolines")
+				if defIn == "cur" {
+					for i := r.Intn(4); i > 0 && rd; i-- {
+						add("ioiter", "keep")
+						pendingRead = true
+					}
+				}
+			case k < 88 && defOut != "std": // io.write
+				if defOut == "cur" && pendingRead && (disciplined || !r.Chance(35)) {
+					separator()
+				}
+				add("iowrite", genWriteData(r))
+				if defOut == "cur" {
+					pendingRead = false
+				}
+			case k < 94 && defOut != "std":
+				add("ioflush")
+				if defOut == "cur" {
+					pendingRead = false
+				}
+			case defOut != "std":
+				add("ioclose")
+				if defOut == "cur" {
+					add("disk")
+					open = false
+				}
+			default:
+				add(Pick(r, []string{"iotype", "tostr"}))
 			}
 			continue
 		}
@@ -485,7 +899,18 @@ func genIoCase(r *Rng, maxOps int) ([]Op, string) {
 			}
 			args := []string{"read"}
 			for i := 0; i < nf; i++ {
-				switch k := r.Intn(100); {
+				k := r.Intn(100)
+				if prof == "numbers" && r.Chance(60) || r.Chance(4) {
+					args = append(args, "N")
+					cur += 8
+					continue
+				}
+				if r.Chance(3) {
+					// format strings that are not "*n" / "*l" / "*a": invalid ones must raise; the others are compared with the Model only
+					args = append(args, "S"+hex.EncodeToString([]byte(Pick(r, badFormats))))
+					continue
+				}
+				switch {
 				case k < 45:
 					n := Pick(r, []int{0, 1, 2, 7, 10, 100, 4095, 4096, 4097, 5000, 8192, 20000})
 					if r.Chance(25) && flen-cur >= 0 {
@@ -550,7 +975,11 @@ func genIoCase(r *Rng, maxOps int) ([]Op, string) {
 					cur = flen + off
 				}
 			}
-			add("seek", wh, strconv.Itoa(off))
+			if off == 0 && r.Chance(25) {
+				add("seek", wh, "0", "bare") // f:seek() / f:seek(whence): the defaults "cur", 0
+			} else {
+				add("seek", wh, strconv.Itoa(off))
+			}
 			pendingRead = false
 		case c < 84:
 			add("flush")
@@ -561,7 +990,11 @@ func genIoCase(r *Rng, maxOps int) ([]Op, string) {
 		case c < 91:
 			add("setvbuf", Pick(r, []string{"no", "full", "full", "line"}), strconv.Itoa(Pick(r, []int{0, 0, 1, 16, 100, 4096, 5000})))
 		default:
-			add("close")
+			if r.Chance(20) {
+				add("close", "io") // io.close(f)
+			} else {
+				add("close")
+			}
 			add("disk")
 			open = false
 		}
@@ -586,6 +1019,160 @@ func genIoCase(r *Rng, maxOps int) ([]Op, string) {
 	return ops, fmt.Sprintf("%s mode=%s size=%s content=%s", label, mode, sz, prof)
 }
 
+
+// ---------- bounded-exhaustive sweeps (run on every check) ----------
+
+func ioHx(b string) string { return "s" + hex.EncodeToString([]byte(b)) }
+
+// ioSweeps: small shapes enumerated completely.
+//
+//	numbers:  every numeral shape × leading white space × what follows × position (start of file / straddling the 4096-byte
+//	          buffer boundary) × {f:read, io.read}: read "*n", report the cursor, read the rest
+//	lines:    contents with / without a final newline, empty lines, lines of 4095..8193 bytes × {f:lines(), io.lines(path),
+//	          io.lines() over io.input(f), over io.input(path)}: iterate to the end, call once more, io.type, close, call again
+//	defaults: every open mode × {io.output(f) … io.write/flush/close, io.input(f) … io.read}, stale default handles, io.output(path)
+//	          on an existing file, io.type / tostring before and after close
+//	read(0):  file sizes around the buffer × cursor at 0 / size-1 / size / past the end
+//	formats:  every invalid format string alone, after a successful format, after a format that met the end of the file
+func ioSweeps() ([][]Op, []string) {
+	var cases [][]Op
+	var notes []string
+	mk := func(note string, lines ...[]string) {
+		var ops []Op
+		for _, l := range lines {
+			ops = append(ops, Op{Args: l})
+		}
+		cases = append(cases, ops)
+		notes = append(notes, note)
+	}
+	L := func(a ...string) []string { return a }
+	pad := func(n int) string {
+		b := make([]byte, n)
+		for i := range b {
+			b[i] = byte('a' + i%26)
+		}
+		return string(b)
+	}
+	// --- numbers
+	toks := []string{"0", "12", "-3", "+45", "3.25", ".5", "5.", "1e3", "1E-2", "-2.5e+3", "0.1", "123456789012345678901234567890",
+		"1.7976931348623157e308", "4.9e-324", "0x10", "-0XfF",
+		// outside the Spec's fragment (Model only)
+		"inf", "nan", "1_0", "0x1p4", "1p3", "1e", "abc", "-", "1e999", "", "\xc2\xa07"}
+	leads := []string{"", " ", "\t ", "\n", " \r\n", "\r", "\v\f"}
+	trails := []string{"", " ", "\n", "x", " 77"}
+	for _, tk := range toks {
+		for _, ld := range leads {
+			for _, tr := range trails {
+				for _, off := range []int{0, 4096 - len(ld) - 1} {
+					if off != 0 && (tr == "x" || tr == " 77") {
+						continue
+					}
+					content := ld + tk + tr
+					var pre [][]string
+					if off > 0 {
+						content = pad(off) + content
+						pre = append(pre, L("read", "n"+strconv.Itoa(off)))
+					}
+					ls := [][]string{L("open", "r", ioHx(content))}
+					ls = append(ls, pre...)
+					ls = append(ls, L("read", "N"), L("seek", "cur", "0"), L("read", "a"), L("close"))
+					mk("sweep=numbers", ls...)
+				}
+			}
+		}
+	}
+	// several numbers in one call, through io.read, and written then read back in update modes
+	for _, sep := range []string{" ", "\t", "\n", "\r\n", "  \n"} {
+		c := "1" + sep + "2.5" + sep + "-3e1" + sep
+		mk("sweep=numbers", L("open", "r", ioHx(c)), L("read", "N", "N", "N", "N"), L("seek", "cur", "0"), L("close"))
+		mk("sweep=numbers", L("open", "r", ioHx(c)), L("ioinput"), L("ioread", "N", "N"), L("ioread", "N", "l"), L("ioread", "N"), L("close"))
+		mk("sweep=numbers", L("open", "w+", ioHx("")), L("write", ioHx("10"+sep+"20")), L("seek", "set", "0"), L("read", "N"), L("seek", "cur", "0"),
+			L("write", ioHx("X")), L("seek", "set", "0"), L("read", "a"), L("close"), L("disk"))
+	}
+	mk("sweep=numbers", L("open", "r", ioHx("5 abc")), L("read", "N", "N"), L("seek", "cur", "0"), L("read", "a"), L("close"))
+	mk("sweep=numbers", L("open", "r", ioHx("abc")), L("read", "N"), L("seek", "cur", "0"), L("close"))
+	mk("sweep=numbers", L("open", "r", ioHx("x 5 y")), L("read", "n1", "N", "n2"), L("close"))
+	mk("sweep=numbers", L("open", "r+", ioHx("12 345678")), L("read", "N"), L("write", ioHx("X")), L("close"), L("disk")) // undisciplined: Model only
+	// --- lines
+	lineContents := []string{"", "a", "a\n", "a\nb", "a\nb\n", "\n", "\n\n", "a\n\nb\n", "last line without newline",
+		pad(4095) + "\nz", pad(4096) + "\nz", pad(4097) + "\nz\n", pad(4096), pad(8192), pad(8193) + "\n", "x\n" + pad(4094) + "\n" + pad(10)}
+	for _, c := range lineContents {
+		nl := strings.Count(c, "\n") + 2
+		its := func(op ...string) [][]string {
+			var r [][]string
+			for i := 0; i < nl; i++ {
+				r = append(r, op)
+			}
+			return r
+		}
+		// f:lines(): the iterator does not close the file
+		ls := [][]string{L("open", "r", ioHx(c)), L("lines")}
+		ls = append(ls, its("iter")...)
+		ls = append(ls, L("iotype"), L("tostr"), L("seek", "cur", "0"), L("close"), L("iter"), L("iotype"), L("tostr"), L("disk"))
+		mk("sweep=lines", ls...)
+		// io.lines(path): closes the file at the end; calling the iterator again raises
+		ls = [][]string{L("open", "r", ioHx(c)), L("close"), L("iolinesname"), L("iotype")}
+		ls = append(ls, L("iodrain"), L("iotype"), L("tostr"), L("ioiter", "auto"), L("read", "l"), L("disk"))
+		mk("sweep=lines", ls...)
+		// io.lines() over io.input(f): does not close
+		ls = [][]string{L("open", "r+", ioHx(c)), L("ioinput"), L("iolines")}
+		ls = append(ls, its("ioiter", "keep")...)
+		ls = append(ls, L("iotype"), L("ioread", "l"), L("close"), L("ioiter", "keep"), L("ioread"), L("iolines"), L("disk"))
+		mk("sweep=lines", ls...)
+		// io.input(path)
+		ls = [][]string{L("open", "r", ioHx(c)), L("close"), L("ioinputname"), L("iolines")}
+		ls = append(ls, its("ioiter", "keep")...)
+		ls = append(ls, L("ioread", "n0"), L("iotype"), L("close"), L("iotype"), L("ioread", "n0"))
+		mk("sweep=lines", ls...)
+	}
+	// --- default files
+	body := "0123456789\nabcdef\n"
+	for _, m := range []string{"r", "w", "a", "r+", "w+", "a+"} {
+		mk("sweep=defaults", L("open", m, ioHx(body)), L("defin"), L("defout"), L("iooutput"), L("defout"), L("defin"), L("iotypeother"), L("iowrite", ioHx("AB")), L("ioflush"), L("disk"), L("iotype"),
+			L("iowrite", ioHx("")), L("seek", "set", "3"), L("iowrite", ioHx("CD")), L("ioclose"), L("disk"), L("iotype"), L("tostr"),
+			L("iowrite", ioHx("E")), L("ioflush"), L("ioclose"), L("disk"),
+			L("reopen", "r", "bare"), L("defout"), L("defin"), L("iowrite", ioHx("F")), L("ioflush"), L("ioclose"), L("read", "a"), L("seek", "cur", "0", "bare"),
+			L("seek", "set", "0", "bare"), L("seek", "end", "0", "bare"), L("close", "io"), L("disk"))
+		mk("sweep=defaults", L("open", m, ioHx(body)), L("ioinput"), L("ioread", "n3"), L("ioread"), L("ioread", "l", "a"), L("ioread", "n0"),
+			L("ioread", "a"), L("ioread", "l"), L("seek", "set", "1"), L("ioread", "n2"), L("close"), L("ioread", "n1"), L("iolines"),
+			L("reopen", "r"), L("defin"), L("ioread", "n1"), L("iolines"), L("read", "n4"), L("ioinput"), L("defin"), L("close"), L("defin"))
+		// both defaults on one update handle: io.read / io.write share the cursor (a seek in between: ISO C)
+		mk("sweep=defaults", L("open", m, ioHx(body)), L("ioinput"), L("iooutput"), L("ioread", "n4"), L("seek", "cur", "0"), L("iowrite", ioHx("XY")),
+			L("ioflush"), L("ioread", "n2"), L("ioflush"), L("iowrite", ioHx("Z")), L("ioclose"), L("disk"), L("ioread", "n1"), L("iowrite", ioHx("Q")), L("disk"))
+	}
+	for _, c := range []string{"", "0123456789", pad(5000)} {
+		// io.output(path) on an existing file (liolib: mode "w"); io.input(path)
+		mk("sweep=defaults", L("open", "r", ioHx(c)), L("close"), L("iooutputname"), L("defout"), L("defin"), L("iotype"), L("iowrite", ioHx("AB")), L("ioflush"), L("disk"),
+			L("read", "n1"), L("ioclose"), L("disk"), L("iowrite", ioHx("C")), L("reopen", "r"), L("read", "a"), L("close"))
+		mk("sweep=defaults", L("open", "r", ioHx(c)), L("close"), L("ioinputname"), L("defin"), L("defout"), L("ioread", "n4"), L("write", ioHx("no")), L("ioread", "a"),
+			L("ioread", "a"), L("ioread", "n0"), L("ioread", "l"), L("close"), L("ioread"), L("disk"))
+	}
+	// a closed handle as default file
+	mk("sweep=defaults", L("open", "r+", ioHx(body)), L("close"), L("ioinput"), L("iooutput"), L("ioread", "n1"), L("iowrite", ioHx("x")), L("ioflush"),
+		L("ioclose"), L("iolines"), L("iotype"), L("disk"))
+	// --- read(0): "" unless at the end of the file, then nil
+	for _, size := range []int{0, 1, 2, 4095, 4096, 4097, 8192} {
+		for _, pos := range []int{0, size - 1, size, size + 3} {
+			if pos < 0 {
+				continue
+			}
+			for _, m := range []string{"r", "r+", "a+"} {
+				mk("sweep=read0", L("open", m, ioHx(pad(size))), L("seek", "set", strconv.Itoa(pos)), L("read", "n0"), L("read", "n0", "n1", "n0"),
+					L("seek", "cur", "0"), L("read", "n0"), L("read", "a"), L("read", "n0"), L("close"))
+			}
+		}
+	}
+	// --- format strings
+	for _, bf := range append(append([]string{}, badFormats...), "*n", "*l", "*a") {
+		f := "S" + hex.EncodeToString([]byte(bf))
+		mk("sweep=formats", L("open", "r", ioHx("hello\nworld\n")), L("read", f), L("seek", "cur", "0"), L("read", "n2", f), L("seek", "cur", "0"),
+			L("read", "a", "l", f), L("read", f), L("seek", "cur", "0"), L("close"), L("read", f))
+		mk("sweep=formats", L("open", "w", ioHx("")), L("read", f), L("close"))
+		mk("sweep=formats", L("open", "r", ioHx("hello\nworld\n")), L("ioinput"), L("ioread", f), L("ioread", "l", f), L("close"))
+	}
+	return cases, notes
+}
+
 func init() { props["C19"] = runC19; replayExec["C19"] = execIo }
 
 func runC19(run *Run) {
@@ -594,14 +1181,20 @@ func runC19(run *Run) {
 		nCases, maxOps = 60000, 60
 	}
 	run.Rule = "random histories over real temp files of size {0,1,4095,4096,4097,8192,10000, small, ±3 around the buffer} × 12 open modes × " +
-		"{write (0..9001 bytes), read n/*l/*a (1-3 formats), lines+iterator calls, seek set/cur/end (boundary-aware offsets, negative, past EOF), " +
-		"flush, setvbuf no/full/line × sizes, close, operations on the closed handle, reopen in any mode, disk snapshots}; content profiles: short lines, " +
-		"lines longer than the 4096-byte buffer, no newline, CRLF, binary, terminators on the buffer boundary; ≈ 88 % of histories obey the ISO C " +
-		"discipline (seek/flush between read and write), the rest are compared with the Model only; every result and every disk snapshot is compared " +
-		"with the Lean Model (exact) and the Spec (one cursor); distinct = distinct op-kind skeletons with >= 3 ops"
+		"{write (0..9001 bytes, incl. numerals), read n/*l/*a/*n and other format strings (1-3 formats), lines+iterator calls, seek set/cur/end (boundary-aware " +
+		"offsets, negative, past EOF), flush, setvbuf no/full/line × sizes, close, operations on the closed handle, reopen in any mode, " +
+		"io.input/io.output (handle | path), io.read/io.write/io.flush/io.close on the default files (current or stale handle), io.lines(path) incl. running " +
+		"it to the end, io.lines(), io.type, tostring, disk snapshots}; content profiles: short lines, lines longer than the 4096-byte buffer, no newline, " +
+		"CRLF, binary, terminators on the buffer boundary, numerals (C numerals, hex, and texts only fmt.Fscanf accepts) separated by every kind of white space; " +
+		"≈ 88 % of histories obey the ISO C discipline (seek/flush between read and write), the rest are compared with the Model only; every result and every " +
+		"disk snapshot is compared with the Lean Model (exact; a number = correctly rounded value of the token, checked in exact arithmetic) and the Spec (one " +
+		"cursor); plus bounded-exhaustive sweeps (tests): numeral shapes × leading white space × follower × position across the buffer boundary, line iterators " +
+		"of all four kinds to the end of file and beyond, default-file scripts × 6 modes, read(0) × sizes × positions, every invalid format string; " +
+		"distinct = distinct op-kind skeletons with >= 3 ops"
 	run.Assume = []string{
 		"OS file semantics (read/write/lseek, O_APPEND, zero-fill past EOF) and Go bufio.Reader/Writer, io.ReadAll are modelled, not verified",
-		"`*n` (fmt.Fscanf) is outside the model and is not generated",
+		"`*n`: fmt.Fscanf/bufio.ReadRune/utf8 and the syntax+range part of strconv.ParseFloat are modelled; that ParseFloat returns the correctly rounded value is checked per observation (exact arithmetic), Ldexp for `1.5p3` tokens is not",
+		"default files: stdin/stdout are never touched; a default slot holds the current handle or an earlier (closed) handle of the file",
 		"one handle at a time on a file (reopen only after close); regular files only (no pipes, no popen)",
 		"the harness is built against a tree with fixes/C19-1..4 applied (the Model describes the repaired functions)"}
 	root := NewRng(uint64(run.Seed) ^ 0xC19)
@@ -610,6 +1203,11 @@ func runC19(run *Run) {
 		cases = append(cases, Case{Idx: -1 - i, Ops: c, Note: "corpus"})
 	}
 	labels := map[string]int{}
+	sw, swNotes := ioSweeps()
+	for i, c := range sw {
+		cases = append(cases, Case{Idx: 1000000 + i, Ops: c, Note: swNotes[i]})
+		labels[swNotes[i]]++
+	}
 	for i := 0; i < nCases; i++ {
 		r := root.Fork(uint64(i))
 		ops, note := genIoCase(r, maxOps)
@@ -620,4 +1218,23 @@ func runC19(run *Run) {
 	}
 	run.Extra["case_profile_histogram"] = labels
 	runCases(run, cases, execIo, classifyTagged)
+	if os.Getenv("C19_DEBUG") != "" {
+		// every failure, abbreviated (debugging aid; no effect on the verdict)
+		cut := func(s string, n int) string {
+			if len(s) > n {
+				return s[:n] + "…"
+			}
+			return s
+		}
+		for _, f := range run.Failures {
+			var ops []string
+			for _, o := range f.Ops {
+				ops = append(ops, cut(o, 40))
+			}
+			if len(ops) > 16 {
+				ops = append(ops[:16], "…")
+			}
+			fmt.Printf("DEBUG %s case=%d note=%q line=%q reply=%q finding=%q ops=%q\n", f.Kind, f.CaseIdx, f.Note, cut(f.Line, 100), cut(f.Reply, 160), f.Finding, ops)
+		}
+	}
 }
